@@ -1,2 +1,187 @@
+//! C13 — point-in-shape queries.
+//!  contains_poly   S->I: a lattice polygon with the specification's inside-bitmap; the polygon, its
+//!                  translates and every variant with one vertex inserted on an edge are queried at
+//!                  every window point through `ShapeTrait::contains`.
+//!  contains_rect / contains_path   S->I for rectangles and Manhattan paths.
+//!  contains_random I->S: random larger simple polygons / paths; (shape, point, answer) events.
+use crate::util::*;
 use crate::CmdFn;
-pub fn commands() -> Vec<(&'static str, CmdFn)> { vec![] }
+use layout21raw::{Path, Point, Polygon, Rect, Shape, ShapeTrait};
+use serde_json::{json, Value};
+
+pub fn commands() -> Vec<(&'static str, CmdFn)> {
+    vec![("contains_poly", contains_poly), ("contains_rect", contains_rect), ("contains_path", contains_path),
+         ("contains_random", contains_random)]
+}
+
+pub fn pts_of(v: &Value) -> Vec<Point> {
+    v.as_array().unwrap().iter().map(|p| Point::new(p[0].as_i64().unwrap() as isize, p[1].as_i64().unwrap() as isize)).collect()
+}
+
+fn on_seg(q: (i64, i64), a: (i64, i64), b: (i64, i64)) -> bool {
+    (b.0 - a.0) * (q.1 - a.1) - (b.1 - a.1) * (q.0 - a.0) == 0
+        && a.0.min(b.0) <= q.0 && q.0 <= a.0.max(b.0) && a.1.min(b.1) <= q.1 && q.1 <= a.1.max(b.1)
+}
+
+fn contains_poly(case: &Value) -> Value {
+    let base = pts_of(&case["poly"]);
+    let g = geti(case, "g") as isize;
+    let expect: Vec<i64> = ivec(&case["inside"]);
+    let w = g + 3;
+    let mut mism = Vec::new();
+    let mut evals = 0u64;
+    // variants: (name, points, offset)
+    let mut variants: Vec<(String, Vec<Point>, (isize, isize))> = vec![("base".into(), base.clone(), (0, 0))];
+    for d in [(-2isize, -2isize), (5, 7)] {
+        variants.push((format!("shift{:?}", d), base.iter().map(|p| Point::new(p.x + d.0, p.y + d.1)).collect(), d));
+    }
+    let n = base.len();
+    for i in 0..n {
+        let a = (base[i].x as i64, base[i].y as i64);
+        let b = (base[(i + 1) % n].x as i64, base[(i + 1) % n].y as i64);
+        for qx in 0..=g { for qy in 0..=g {
+            if on_seg((qx as i64, qy as i64), a, b) {
+                let mut v = base.clone();
+                v.insert(i + 1, Point::new(qx, qy));
+                variants.push((format!("insert{}@({},{})", i + 1, qx, qy), v, (0, 0)));
+            }
+        }}
+    }
+    for (name, pts, d) in variants {
+        let poly = Shape::Polygon(Polygon { points: pts.clone() });
+        for k in 0..(w * w) {
+            let x = (k % w) - 1;
+            let y = (k / w) - 1;
+            let got = poly.contains(&Point::new(x + d.0, y + d.1));
+            evals += 1;
+            if got != (expect[k as usize] == 1) {
+                if mism.len() < 8 {
+                    mism.push(json!({"variant": name, "points": pts.iter().map(|p| vec![p.x, p.y]).collect::<Vec<_>>(),
+                                     "query": [x + d.0, y + d.1], "got": got, "expected": expect[k as usize] == 1}));
+                } else { mism.push(json!(null)); }
+            }
+        }
+    }
+    let nm = mism.len();
+    mism.retain(|m| !m.is_null());
+    json!({"id": id(case), "outcome": "ok", "evals": evals, "nmismatch": nm, "mismatch": mism})
+}
+
+fn contains_rect(case: &Value) -> Value {
+    // {c0:[x,y], c1:[x,y], lo, hi, inside:[...]} window lo..hi squared, row-major
+    let c = pts_of(&json!([case["c0"], case["c1"]]));
+    let (lo, hi) = (geti(case, "lo") as isize, geti(case, "hi") as isize);
+    let expect = ivec(&case["inside"]);
+    let w = hi - lo + 1;
+    let r = Shape::Rect(Rect { p0: c[0], p1: c[1] });
+    let mut mism = Vec::new();
+    for k in 0..(w * w) {
+        let (x, y) = (lo + k % w, lo + k / w);
+        let got = r.contains(&Point::new(x, y));
+        if got != (expect[k as usize] == 1) { mism.push(json!({"query":[x,y],"got":got})); }
+    }
+    json!({"id": id(case), "outcome": "ok", "evals": w*w, "nmismatch": mism.len(), "mismatch": mism})
+}
+
+fn contains_path(case: &Value) -> Value {
+    // {pts, w, lo, hi, must:[0/1], mustnot:[0/1]}
+    let pts = pts_of(&case["pts"]);
+    let width = geti(case, "w") as usize;
+    let (lo, hi) = (geti(case, "lo") as isize, geti(case, "hi") as isize);
+    let must = ivec(&case["must"]);
+    let mustnot = ivec(&case["mustnot"]);
+    let w = hi - lo + 1;
+    let p = Shape::Path(Path { points: pts, width });
+    let mut mism = Vec::new();
+    for k in 0..(w * w) {
+        let (x, y) = (lo + k % w, lo + k / w);
+        let got = p.contains(&Point::new(x, y));
+        if (must[k as usize] == 1 && !got) || (mustnot[k as usize] == 1 && got) {
+            mism.push(json!({"query":[x,y],"got":got,"must":must[k as usize],"mustnot":mustnot[k as usize]}));
+        }
+    }
+    json!({"id": id(case), "outcome": "ok", "evals": w*w, "nmismatch": mism.len(), "mismatch": mism})
+}
+
+/// Random simple polygons, simple by construction.
+pub fn random_polygon(rng: &mut Rng) -> (String, Vec<(i64, i64)>) {
+    match rng.below(4) {
+        0 | 1 => {
+            // double histogram: columns with bottom < top; a rectilinear polygon with U-, L- and comb shapes
+            let cols = rng.range(2, 14);
+            let mut xs = vec![rng.range(-50, 50)];
+            for _ in 0..cols { let l = *xs.last().unwrap(); xs.push(l + rng.range(1, 9)); }
+            let base = rng.range(-40, 40);
+            let mut top = Vec::new(); let mut bot = Vec::new();
+            for _ in 0..cols { bot.push(base - rng.range(0, 12)); top.push(base + rng.range(1, 14)); }
+            let mut pts: Vec<(i64, i64)> = Vec::new();
+            // bottom skyline left -> right
+            for c in 0..cols as usize { pts.push((xs[c], bot[c])); pts.push((xs[c + 1], bot[c])); }
+            // top skyline right -> left
+            for c in (0..cols as usize).rev() { pts.push((xs[c + 1], top[c])); pts.push((xs[c], top[c])); }
+            // drop consecutive duplicates (equal neighbouring heights leave collinear vertices: kept on purpose)
+            pts.dedup();
+            if pts.first() == pts.last() { pts.pop(); }
+            let mut kind = "rectilinear";
+            if rng.chance(1, 3) {
+                // shear by 45 degrees: (x, y) -> (x + y, y); simple polygons stay simple
+                for p in pts.iter_mut() { p.0 += p.1; }
+                kind = "45deg";
+            } else if rng.chance(1, 3) {
+                for p in pts.iter_mut() { std::mem::swap(&mut p.0, &mut p.1); }   // transpose
+            }
+            let r = rng.below(pts.len() as u64) as usize;
+            pts.rotate_left(r);
+            if rng.chance(1, 2) { pts.reverse(); }
+            (kind.into(), pts)
+        }
+        _ => {
+            // star-shaped around the origin: distinct directions sorted by angle, random radii
+            let n = rng.range(3, 24) as usize;
+            let mut dirs: Vec<(i64, i64)> = Vec::new();
+            while dirs.len() < n {
+                let d = (rng.range(-30, 30), rng.range(-30, 30));
+                if d == (0, 0) { continue; }
+                // distinct directions only
+                if dirs.iter().any(|e| e.0 * d.1 - e.1 * d.0 == 0 && e.0 * d.0 + e.1 * d.1 > 0) { continue; }
+                dirs.push(d);
+            }
+            dirs.sort_by(|a, b| (a.1 as f64).atan2(a.0 as f64).partial_cmp(&(b.1 as f64).atan2(b.0 as f64)).unwrap());
+            // the origin must be strictly inside: consecutive directions must turn by less than 180 degrees
+            let ok = (0..n).all(|i| { let a = dirs[i]; let b = dirs[(i + 1) % n]; a.0 * b.1 - a.1 * b.0 > 0 });
+            if !ok { return random_polygon(rng); }
+            let c = (rng.range(-100, 100), rng.range(-100, 100));
+            let pts = dirs.iter().map(|d| { let k = rng.range(1, 30); (c.0 + d.0 * k, c.1 + d.1 * k) }).collect();
+            ("star".into(), pts)
+        }
+    }
+}
+
+fn contains_random(case: &Value) -> Value {
+    let mut rng = Rng::new(geti(case, "seed") as u64);
+    let nshapes = geti(case, "shapes");
+    let nq = geti(case, "queries");
+    let mut events = Vec::new();
+    for _ in 0..nshapes {
+        let (kind, pts) = random_polygon(&mut rng);
+        let poly = Shape::Polygon(Polygon { points: pts.iter().map(|p| Point::new(p.0 as isize, p.1 as isize)).collect() });
+        let (x0, x1) = (pts.iter().map(|p| p.0).min().unwrap(), pts.iter().map(|p| p.0).max().unwrap());
+        let (y0, y1) = (pts.iter().map(|p| p.1).min().unwrap(), pts.iter().map(|p| p.1).max().unwrap());
+        let mut qs: Vec<(i64, i64)> = Vec::new();
+        let n = pts.len();
+        for i in 0..n {
+            let (a, b) = (pts[i], pts[(i + 1) % n]);
+            qs.push(a);
+            qs.push(((a.0 + b.0) / 2, (a.1 + b.1) / 2));
+            for d in [(-1, 0), (1, 0), (0, -1), (0, 1)] { qs.push((a.0 + d.0, a.1 + d.1)); }
+            // points on the horizontal line through the vertex: rays through vertices
+            qs.push((x0 + rng.below((x1 - x0 + 1) as u64) as i64, a.1));
+        }
+        while (qs.len() as i64) < nq { qs.push((rng.range(x0 - 2, x1 + 2), rng.range(y0 - 2, y1 + 2))); }
+        qs.truncate(nq as usize);
+        let answers: Vec<i64> = qs.iter().map(|q| poly.contains(&Point::new(q.0 as isize, q.1 as isize)) as i64).collect();
+        events.push(json!({"kind": kind, "poly": pts.iter().map(|p| vec![p.0, p.1]).collect::<Vec<_>>(),
+                           "qs": qs.iter().map(|p| vec![p.0, p.1]).collect::<Vec<_>>(), "ans": answers}));
+    }
+    json!({"id": id(case), "outcome": "ok", "events": events})
+}
